@@ -600,6 +600,16 @@ impl GrammarBuilder {
                 {
                     assign.symbol.index = Some(match symbol {
                         GrammarSymbol::Name(name) => {
+                            if ["STOP", "AUG", "AUGL"].contains(&name.as_ref().as_str()) {
+                                err!(
+                                    format!(
+                                        "Implicit symbol '{}' can't be referenced in production '{}'.",
+                                        name, production_str
+                                    ),
+                                    Some(self.file.clone()),
+                                    name.span
+                                )?;
+                            }
                             if let Some(terminal) = self.terminals.get(name.as_ref()) {
                                 terminal.idx.symbol_index()
                             } else {
